@@ -391,6 +391,7 @@ fn run_history(case: &FaultCase, fault: Option<(FaultRule, bool, bool, bool)>, c
     env.skip_dirty_delete_all = true;
     let mut rep = RunReport::default();
     let armed_at = sd.op_count();
+    let armed_log_len = sd.log_len();
     if let Some((rule, _, _, _)) = &fault {
         sd.set_faults(vec![rule.clone()]);
     }
@@ -463,7 +464,8 @@ fn run_history(case: &FaultCase, fault: Option<(FaultRule, bool, bool, bool)>, c
     if fault.is_none() {
         // dry run: hand back the op kinds for position selection
         let log = sd.clone_log();
-        rep.log_kinds = log.iter().map(|o| (o.kind, o.thread.clone(), o.path.to_string_lossy().to_string())).collect();
+        // only operations issued after the point where a fault would be armed count for the positions
+        rep.log_kinds = log.iter().skip(armed_log_len).map(|o| (o.kind, o.thread.clone(), o.path.to_string_lossy().to_string())).collect();
         return Ok(rep);
     }
     rep.api_error = match &failed_api {
@@ -472,6 +474,14 @@ fn run_history(case: &FaultCase, fault: Option<(FaultRule, bool, bool, bool)>, c
     };
     // recovery, faults off
     sd.clear_faults();
+    if std::env::var("TVV_C11_DUMP").is_ok() {
+        let log = sd.clone_log();
+        let start = log.iter().rposition(|o| o.path.to_string_lossy() == "meta.json" && o.kind == K::AtomicWrite).unwrap_or(0).saturating_sub(3);
+        for (n, o) in log.iter().enumerate().skip(start) {
+            eprintln!("  {n:5} {:24} {:?} {} failed={}", o.thread, o.kind, o.path.display(), o.failed);
+        }
+        eprintln!("  api error: {failed_api:?}");
+    }
     // optional: an explicit merge with the failed writer (its end_merge writes the metadata again)
     if fault.as_ref().map(|f| f.3).unwrap_or(false) && failed_api.as_ref().map(|x| x.1 == "commit").unwrap_or(false) {
         if let Some(w) = env.writer.as_mut() {
@@ -560,7 +570,11 @@ fn run_history(case: &FaultCase, fault: Option<(FaultRule, bool, bool, bool)>, c
     }
     let (_schema, f) = hist_schema();
     {
-        let reader: tantivy::IndexReader = fresh.reader_builder().reload_policy(tantivy::ReloadPolicy::Manual).try_into().or_fail("after_fault:reader_open_failed")?;
+        let reader: tantivy::IndexReader = fresh.reader_builder().reload_policy(tantivy::ReloadPolicy::Manual).try_into().map_err(|e: tantivy::TantivyError| {
+            let msg = format!("{e:?}");
+            let hist = msg.split('"').find(|w| w.len() > 33 && w.contains('.')).map(|name| file_history(&sd.clone_log(), &name[..32])).unwrap_or_default();
+            Failure::new("after_fault:reader_open_failed", format!("(api error: {failed_api:?}, exposed commit c{found_j}, last ok c{j_ok}) {msg}; history:{hist}"))
+        })?;
         verify_searcher(&reader.searcher(), &f, &models[found_j as usize], "after_fault").map_err(|fl| {
             // specific class: the metadata still names the previous commit, but the content is exactly what the
             // failed commit would have published
@@ -597,9 +611,26 @@ fn run_history(case: &FaultCase, fault: Option<(FaultRule, bool, bool, bool)>, c
     Ok(rep)
 }
 
+/// storage history of the files of one segment (diagnostics for failures)
+fn file_history(log: &[crate::simdir::Op], seg: &str) -> String {
+    let mut hist = String::new();
+    let mut syncs = 0usize;
+    for (n, o) in log.iter().enumerate() {
+        if o.kind == K::SyncDir {
+            syncs += 1;
+        }
+        let p = o.path.to_string_lossy();
+        if (p.contains(seg) && matches!(o.kind, K::Create | K::Delete)) || (p == "meta.json" && o.kind == K::AtomicWrite) {
+            let extra = if p == "meta.json" { format!(" mentions_segment={}", o.data.as_ref().map(|d| String::from_utf8_lossy(d).contains(&seg[..8])).unwrap_or(false)) } else { String::new() };
+            hist.push_str(&format!(" [{n}:{:?} {} by {} failed={}{extra}]", o.kind, p, o.thread, o.failed));
+        }
+    }
+    hist.push_str(&format!(" ({} ops, {syncs} syncs)", log.len()));
+    hist
+}
 fn api_of(op: &Op) -> &'static str {
     match op {
-        Op::Add(_) => "add",
+        Op::Add(_) | Op::BigRun(..) => "add",
         Op::DelUid(_) | Op::DelGroup(_) => "delete_term",
         Op::DelRange(..) | Op::DelBool(..) => "delete_query",
         Op::Batch(_) => "run",
